@@ -28,10 +28,22 @@ def models(ctx, cfg):
             name = cfg[3:]
             backend = 'sm' if ('sm' in name.split('_')[0] or name.startswith('g8') or name.endswith('_sm')) else 'tail'
             defs = []
-            with open(os.path.join(facts.fixture_gen(ctx.hash), name + '.jsonl')) as f:
+            # fixtures that only replace the artefacts printed by the derive reuse the unbroken code of base_tail
+            code = 'base_tail' if name in ('g20_graph_broken',) else name
+            with open(os.path.join(facts.fixture_gen(ctx.hash), code + '.jsonl')) as f:
                 for line in f:
                     if line.strip():
                         defs.append(genlib.Definition(json.loads(line), backend))
+            import autlib
+            fxdir = os.path.join(facts.VERIF, 'fixtures', 'gen')
+            dbg = os.path.join(fxdir, name + '.debug.txt')
+            if not os.path.exists(dbg):
+                dbg = os.path.join(fxdir, 'base.debug.txt')
+            with open(dbg) as f:
+                invs = autlib.split_invocations(f.read())
+            for df in defs:
+                df.inv = invs[0] if len(invs) == 1 else None
+                df.inv_error = None if len(invs) == 1 else 'fixture debug stream'
         else:
             defs = ctx.gen(cfg)
         for d in defs:
@@ -695,9 +707,20 @@ def rule_shape_coverage(ctx, rep, cfgs):
 # property bundles
 # ------------------------------------------------------------------------------------------------
 
+def rules_c01(ctx, rep):
+    cfgs = configs(ctx)
+    base_checks(ctx, rep, cfgs)
+    rule_automata(ctx, rep, cfgs)
+    if ctx.tier == 'thorough':
+        rule_debug_neutral(ctx, rep, cfgs)
+    rule_shape_coverage(ctx, rep, cfgs)
+    controls(ctx, rep, ['G19', 'G20'])
+
+
 def rules_c02(ctx, rep):
     cfgs = configs(ctx)
     base_checks(ctx, rep, cfgs)
+    rule_automata(ctx, rep, cfgs)
     rule_error_action(ctx, rep, cfgs)
     rule_graph(ctx, rep, cfgs, want=('G6b',))
     rule_transitions(ctx, rep, cfgs, want=('G2',))
@@ -710,6 +733,7 @@ def rules_c02(ctx, rep):
 def rules_c03(ctx, rep):
     cfgs = configs(ctx)
     base_checks(ctx, rep, cfgs)
+    rule_automata(ctx, rep, cfgs)
     rule_transitions(ctx, rep, cfgs, want=('G1',))
     rule_graph(ctx, rep, cfgs, want=('G3', 'G4'))
     rule_fast_loops(ctx, rep, cfgs)
@@ -724,6 +748,7 @@ def rules_c04(ctx, rep):
     records are at offset / offset - 1 (necessary for ends to be the automaton's match ends, hence char boundaries)"""
     cfgs = configs(ctx)
     base_checks(ctx, rep, cfgs)
+    rule_automata(ctx, rep, cfgs)
     rule_transitions(ctx, rep, cfgs, want=('G1',))
     rule_records(ctx, rep, cfgs, want=('G10', 'G7c'))
     rule_error_action(ctx, rep, cfgs)
@@ -733,6 +758,7 @@ def rules_c04(ctx, rep):
 def rules_c05(ctx, rep):
     cfgs = configs(ctx, forbid=True)
     base_checks(ctx, rep, cfgs)
+    rule_automata(ctx, rep, cfgs)
     rule_records(ctx, rep, cfgs, want=('G7c',))
     rule_graph(ctx, rep, cfgs, want=('G3',))              # at most one virtual end-of-input position: offsets stay <= len + 1
     rule_fast_loops(ctx, rep, cfgs)
@@ -769,6 +795,7 @@ def rules_c06(ctx, rep):
     cfgs = configs(ctx)
     base_checks(ctx, rep, cfgs)
     rule_backends(ctx, rep, (cfgs[0], cfgs[1]))
+    rule_automata(ctx, rep, cfgs)
     extra = dict(rep.extra)
     rule_shape_coverage(ctx, rep, cfgs)
     controls(ctx, rep, ['G8'])
@@ -788,6 +815,7 @@ def rules_c07(ctx, rep):
 def rules_c13(ctx, rep):
     cfgs = configs(ctx)
     base_checks(ctx, rep, cfgs)
+    rule_automata(ctx, rep, cfgs)
     rule_action_dispatch(ctx, rep, cfgs)
     rule_leaf_arms(ctx, rep, cfgs)
     rule_records(ctx, rep, cfgs, want=('G10',))
@@ -797,6 +825,7 @@ def rules_c13(ctx, rep):
 def rules_c20(ctx, rep):
     cfgs = configs(ctx)
     base_checks(ctx, rep, cfgs)
+    rule_automata(ctx, rep, cfgs)
     rule_transitions(ctx, rep, cfgs, want=('G1', 'G2', 'G12'))
     rule_fast_loops(ctx, rep, cfgs)
     rule_graph(ctx, rep, cfgs, want=('G3', 'G6b'))      # no end-of-input cycle (unbounded reads), no walk beyond the decision
@@ -874,6 +903,8 @@ CONTROLS = {
     'G9c': ('g9c_no_trivia', lambda c, r, cfgs: rule_action_dispatch(c, r, cfgs)),
     'G10': ('g10_record_ahead', lambda c, r, cfgs: rule_records(c, r, cfgs, want=('G10',))),
     'G11': ('g11_chunk_advance', lambda c, r, cfgs: rule_fast_loops(c, r, cfgs)),
+    'G19': ('g8_sm_other_edge', lambda c, r, cfgs: rule_automata(c, r, cfgs, want=('G19',))),
+    'G20': ('g20_graph_broken', lambda c, r, cfgs: rule_automata(c, r, cfgs, want=('G20',))),
 }
 
 
@@ -995,3 +1026,112 @@ def rule_promptness(ctx, rep, cfgs):
             return not x.edges and not x.loopset and x.eoi_edge is None and x.record == (leaf, 'late')
         if all(sink(t) for t in succ):
             rep.viol(g18, 'redundant:%s' % k, 'state %s records leaf %s early, and all of its %d successor state(s) are sinks that only record %s again at the same end: the late accept of those sinks should have been removed; a partial lexer withholds the decided item' % (name, leaf, len(succ), leaf), d.name)
+
+
+# ------------------------------------------------------------------------------------------------
+# G19 / G20: translation validation against the artefacts the derive prints (debug feature)
+#   G19  generated code  ==  logos graph          (validates the generator: fork / fast loop / leaf rendering)
+#   G20  logos graph     ~   regex-automata DFA   (validates Graph::new: typing by priority, early/late, pruning, merging)
+# ------------------------------------------------------------------------------------------------
+
+def _leaf_index(name):
+    m = re.search(r'(\d+)$', str(name))
+    return int(m.group(1)) if m else None
+
+
+def rule_automata(ctx, rep, cfgs, want=('G19', 'G20'), corpus_only=False):
+    import autlib
+    g19 = rep.rule('G19', 'generator validation: for every accepted definition the transition system extracted from the generated code (states, byte edges incl. fast-loop self edges, end-of-input edge, early/late record and its leaf, entry state) is identical, state by state, to the graph the derive printed in the same run', floor=60) if 'G19' in want else None
+    g20 = rep.rule('G20', 'graph validation: for every accepted definition the product of the graph with the regex-automata DFA it was built from (reference; match states delayed by one transition, leaf = highest priority pattern of the match state) is explored from (start, root): on every reachable pair and every byte / end of input the graph holds the same last match as the reference, stops exactly where the reference can no longer reach a match, and never continues into a dead reference state', floor=60) if 'G20' in want else None
+    for cfg in cfgs:
+        for d, m, sm in models(ctx, cfg):
+            if d.rejected or m is None:
+                continue
+            if corpus_only and d.label != 'corpus':
+                continue
+            k = '%s:%s' % (d.backend, dkey(d))
+            inv = getattr(d, 'inv', None)
+            for rid in (g19, g20):
+                if rid is not None:
+                    rep.inst(rid, k)
+            if inv is None or not inv.codegen or inv.root is None:
+                why = getattr(d, 'inv_error', None) or 'the debug stream of this invocation ends before code generation'
+                for rid in (g19, g20):
+                    if rid is not None:
+                        rep.viol(rid, 'no-artefacts:%s' % k, 'cannot associate %s with the artefacts printed by the derive (%s): fail closed' % (d.name, why), d.name)
+                continue
+            try:
+                graph = inv.graph()
+                dfa = inv.dfa() if g20 is not None else None
+            except autlib.ParseError as e:
+                for rid in (g19, g20):
+                    if rid is not None:
+                        rep.viol(rid, 'artefact-syntax:%s' % k, 'the artefacts printed by the derive for %s cannot be parsed (%s): fail closed' % (d.name, e), d.name)
+                continue
+            if g19 is not None:
+                _compare_code_graph(rep, g19, k, d, m, sm, graph, inv)
+            if g20 is not None:
+                stats, mism = autlib.compare_dfa_graph(dfa, inv.leaves, graph, inv.root)
+                rep.analysed['product_states'] = rep.analysed.get('product_states', 0) + stats.get('product_states', 0)
+                for x in mism[:6]:
+                    rep.viol(g20, 'graph-vs-dfa:%s:%s' % (x['kind'], k), '%s, after reading "%s": %s' % (d.name, autlib.fmt_path(x['path']), x['detail']), d.name)
+
+
+def _compare_code_graph(rep, rid, k, d, m, sm, graph, inv):
+    def bad(kind, msg):
+        rep.viol(rid, 'code-vs-graph:%s:%s' % (kind, k), '%s: %s' % (d.name, msg), d.name)
+    if set(sm) != set(graph.states):
+        bad('states', 'generated states %s, graph states %s' % (sorted(set(sm) - set(graph.states))[:5], sorted(set(graph.states) - set(sm))[:5]))
+        return
+    if m.state_key(m.root) != inv.root:
+        bad('root', 'generated code starts in %s, the graph root is state%d' % (m.root, inv.root))
+    nleaves = len(inv.leaves or [])
+    for key in sorted(sm):
+        s = sm[key]
+        g = graph.states[key]
+        # record
+        want = ('early', g['early']) if g['early'] is not None else (('late', g['accept']) if g['accept'] is not None else None)
+        got = None
+        if s.record is not None:
+            got = (s.record[1], _leaf_index(s.record[0]))
+        elif s.records or len(getattr(s, 'pre', ())) > 1:
+            got = ('?', None)
+        if want != got:
+            bad('record:state%d' % key, 'state%d records %s in the generated code, the graph says %s' % (key, got, want))
+        if got and got[1] is not None and got[1] >= nleaves:
+            bad('leaf:state%d' % key, 'state%d records leaf %s but the definition has %d leaves' % (key, got[1], nleaves))
+        # byte edges
+        diff = []
+        for b in range(256):
+            ge = g['edges'][b]
+            ce = key if b in s.loopset else s.edges.get(b)
+            if ge != ce:
+                diff.append((b, ge, ce))
+        if diff:
+            b, ge, ce = diff[0]
+            bad('edges:state%d' % key, 'state%d: %d byte value(s) go elsewhere, e.g. byte 0x%02x: graph -> %s, generated code -> %s' % (key, len(diff), b, 'state%d' % ge if ge is not None else 'stop', 'state%d' % ce if ce is not None else 'stop'))
+        if g['eoi'] != s.eoi_edge:
+            bad('eoi:state%d' % key, 'state%d: end-of-input edge graph -> %s, generated code -> %s' % (key, g['eoi'], s.eoi_edge))
+
+
+def rule_debug_neutral(ctx, rep, cfgs):
+    """thorough tier: the `debug` feature, with which the artefacts are printed, does not change the generated code"""
+    rid = rep.rule('G21', 'the debug feature only prints: every corpus definition expands to token-identical `fn lex` with and without it (so what G19/G20 validate is the code of an ordinary build)', floor=200)
+    for cfg in cfgs:
+        plain = {}
+        for d in genlib.load_nodebug(ctx.hash, cfg):
+            plain[(d.module, d.self_ty)] = d
+        n = 0
+        for d in ctx.gen(cfg):
+            if d.label != 'corpus':
+                continue
+            n += 1
+            k = '%s:%s' % (d.backend, dkey(d))
+            rep.inst(rid, k)
+            o = plain.get((d.module, d.self_ty))
+            if o is None:
+                rep.viol(rid, 'nodebug-missing:%s' % k, '%s has no counterpart in the build without the debug feature' % d.name, d.name)
+            elif o.body_tokens != d.body_tokens or o.rejected != d.rejected:
+                rep.viol(rid, 'debug-changes-code:%s' % k, '%s: the generated code differs between a build with and without the debug feature' % d.name, d.name)
+        if not n:
+            rep.anchor(rid, 'corpus definitions under %s' % cfg, False)
